@@ -481,7 +481,11 @@ func (i *interpreter) symBinop(op token.Token, t types.Type, x, y value) value {
 			if _, ok := y.(opaqueStr); ok {
 				panic(unsupported{"ordering of an opaque string"})
 			}
-			return &sym{term: "(" + c + " " + i.termOf(x) + " " + i.termOf(y) + ")", kind: kBool}
+			ta, tb := i.termOf(x), i.termOf(y)
+			if ta == tb {
+				return op == token.LEQ || op == token.GEQ
+			}
+			return &sym{term: "(" + c + " " + ta + " " + tb + ")", kind: kBool}
 		}
 		if op == token.ADD {
 			return i.newOpaque()
@@ -492,7 +496,11 @@ func (i *interpreter) symBinop(op token.Token, t types.Type, x, y value) value {
 		panic(unsupported{fmt.Sprintf("symbolic binop %s on %s", op, t)})
 	}
 	if c := cmpOp(op); c != "" {
-		return &sym{term: "(" + c + " " + i.termOf(x) + " " + i.termOf(y) + ")", kind: kBool}
+		ta, tb := i.termOf(x), i.termOf(y)
+		if ta == tb {
+			return op == token.LEQ || op == token.GEQ
+		}
+		return &sym{term: "(" + c + " " + ta + " " + tb + ")", kind: kBool}
 	}
 	a, b := i.termOf(x), i.termOf(y)
 	bits, signed := kindBits(k)
